@@ -320,7 +320,7 @@ def run(summ, seed, per_def, corpus=None):
     if not okm:
         return {'evaluations': 0, 'agree': 0, 'exact_components': 0, 'components': 0, 'disagreements': [], 'hist': hist,
                 'coq_errors': [{'file': 'make lib/ExprF.vo gen/*.vo', 'rc': 2, 'out': logm[-1500:]}]}
-    CH = 400
+    CH = 200
     srcs = []
     for ci in range(0, len(rows), CH):
         chunk = rows[ci:ci + CH]
